@@ -93,7 +93,7 @@ def obligations(tier):
                   "message report: K iff some r and DATA<400 and final<400, D/Z by class at MAIL/DATA/final, Z for greeting!=220, "
                   "HELO!=250; any disconnect calls dropped() at a record boundary with flagcritical set iff the dot was sent; "
                   "NUL in server text adds no record; flushed; exit 0",
-            expect_witnesses=lambda p: ["delivered", "delivered_multiline_nul_text", "delivered_crlf", "no_recipient_accepted", "refused_after_dot_5xx",
+            expect_witnesses=lambda p: ["delivered", "junk_reply_after_dot", "delivered_multiline_nul_text", "delivered_crlf", "no_recipient_accepted", "refused_after_dot_5xx",
                                         "deferred_after_dot_4xx", "data_5xx", "mail_5xx", "bad_greeting", "bad_helo",
                                         "lost_inside_final_reply", "lost_while_sending_dot", "lost_while_sending_message",
                                         "lost_before_greeting", "lost_at_last_rcpt", "timeout_at_data", "lost_writing_last_rcpt"]
